@@ -1,5 +1,5 @@
 """C14 — logging delivers every accepted line exactly once, whole and in order."""
-import os, time, subprocess, hashlib
+import os, re, time, subprocess, hashlib
 from concurrent.futures import ThreadPoolExecutor
 from lib.core import Case, GenError, write_if_changed, LEAN
 from lib import cbuild, core, detsched
@@ -24,7 +24,9 @@ ASSUMPTIONS = ["timestamp and thread-id text come from libc/pthreads: parameters
 RULE = ("op files over aws_format_standard_log_line (total_length 2..300 exhaustively per configuration, boundaries around the prefix "
         "and message end, 8192/9000-byte buffers), the no-alloc logger (message lengths 0..9000) and a pipeline logger (all 7 levels x 7 filter "
         "settings, level stores interleaved, failing channel); non-trivial = at least one line produced; distinct by op-file hash. "
-        "Background channel: seeded detsched schedules (1-4 senders, 0-6 lines each, clean-up at a random point), each replayed on the Lean transition system")
+        "Background channel: seeded detsched schedules (1-4 senders, 0-6 lines each, clean-up at a random point, recording writer failing every "
+        "k-th write), each replayed on the Lean transition system; foreground channel and the no-alloc logger shared by 1-4 threads under the "
+        "same scheduler (oracle only); pipeline logger with a writer failing on scheduled calls")
 
 LEVELS = [b"NONE", b"FATAL", b"ERROR", b"WARN", b"INFO", b"DEBUG", b"TRACE"]
 DATE_FMTS = ["%a, %d %b %Y %H:%M:%S GMT", "%Y-%m-%dT%H:%M:%SZ", "%Y%m%dT%H%M%SZ"]
@@ -183,9 +185,17 @@ def log_op(rng, which, level, msg_len=None, how=None):
     return f"pipe {which} {level} {sid} {hx(SUBJECTS[sid])} {msg_len} {shape} {how}"
 
 
+def wfail_op(rng, horizon):
+    """the recording writer fails on these call ordinals (counted from the case start)"""
+    ks = sorted({rng.randint(0, horizon) for _ in range(rng.randint(1, 6))} | ({0} if rng.random() < 0.3 else set()))
+    return "wfail " + " ".join(str(k) for k in ks)
+
+
 def gen_gate_exhaustive(rng, which):
     e, tid, ts = env_op(rng)
     ops = [e, f"init {which} {rng.randint(0, 6)}"]
+    if which == "a" and rng.random() < 0.7:
+        ops.append(wfail_op(rng, 25))
     for f in range(7):
         ops.append(f"setlevel {which} {f}")
         for l in range(7):
@@ -212,7 +222,9 @@ def gen_pipe_random(rng, n):
             have.add(w)
             continue
         r = rng.random()
-        if r < 0.25:
+        if r < 0.08:
+            ops.append(wfail_op(rng, 20) if rng.random() < 0.85 else "wfail -")
+        elif r < 0.25:
             ops.append(f"setlevel {w} {rng.choice([0, 1, 2, 3, 4, 5, 6, 7, 100])}")
         else:
             big = rng.random() < 0.08
@@ -329,6 +341,8 @@ def oracle(case, lines):
         if t[0] == "init":
             level_of[t[1]] = int(t[2])
             continue
+        if t[0] == "wfail":
+            continue
         if t[0] == "setlevel":
             l = nxt()
             if t[1] in level_of:
@@ -358,7 +372,8 @@ def oracle(case, lines):
             if k != want:
                 errs.append(f"{op}: {k} line(s) reached the writer, expected {want} (logger level {level_of[which]}, call level {level})")
             if kv["live"] != "0":
-                errs.append(f"{op}: {kv['live']} allocation(s) outstanding after the call (line not destroyed exactly once)")
+                errs.append(f"{op}: {kv['live']} allocation(s) outstanding after the call (line not destroyed exactly once"
+                            + (", writer reported a failure" if kv.get("werr", "0") != "0" else "") + ")")
             for line in got[:1]:
                 if want:
                     full = prefix_of(level, ts[1], tid, subject) + msg_of(msg_len, shape) + b"\n"
@@ -367,6 +382,10 @@ def oracle(case, lines):
             continue
         nxt()
     return errs[:8]
+
+
+def classify(case, detail):
+    return None
 
 
 def nontrivial(case):
@@ -401,6 +420,7 @@ def distribution(cases, c_out):
                 d["fmt_rejected"] += 1
             elif l.startswith("P log lines=1"):
                 d["lines_from_loggers"] += 1
+                d["writer_failures"] = d.get("writer_failures", 0) + (0 if l.endswith("werr=0") else 1)
             elif l.startswith("P log lines=0"):
                 d["calls_filtered"] += 1
     return d
@@ -416,9 +436,11 @@ def bg_run_lines(rng, n):
         senders = rng.choice([1, 2, 2, 3, 4])
         lines = rng.choice([0, 1, 2, 3, 3, 4, 6])
         r = rng.random()
-        quiesce = 1 if r < 0.2 else (2 if r < 0.35 else 0)     # 1: drain before clean-up, 2: foreground channel
+        # 1: drain before clean-up, 2: foreground channel, 3: no-alloc logger shared by the threads
+        quiesce = 1 if r < 0.15 else (2 if r < 0.3 else (3 if r < 0.5 else 0))
+        wfail = rng.choice([0, 0, 1, 2, 3]) if quiesce != 3 else 0      # every k-th write() of the recording writer fails
         delay = rng.choice([0, rng.randint(0, 10), rng.randint(0, 60), rng.randint(0, 150)])
-        out.append(f"run {i} {senders} {lines} {delay} {quiesce} seed {rng.getrandbits(32)} {rng.choice([0, 30, 70, 90])} {rng.choice([0, 0, 50, 200])}")
+        out.append(f"run {i} {senders} {lines} {delay} {quiesce} {wfail} seed {rng.getrandbits(32)} {rng.choice([0, 30, 70, 90])} {rng.choice([0, 0, 50, 200])}")
     return out
 
 
@@ -444,8 +466,72 @@ def bg_execute(exe, run_lines):
     return res
 
 
+def na_text(i, k):
+    return (f"T{i} N{k} payload " + "".join(chr(97 + (i * 3 + k + j) % 26) for j in range(3 + (i * 11 + k * 5) % 60))).encode()
+
+
+_na_line = re.compile(rb"^\[(INFO|ERROR)\] \[[^\]\n]*\] \[([0-9a-f]*)\] \[aws-c-common\] - T(\d+) N(\d+) payload [a-z]*$")
+
+
+def na_oracle(cfg, lines):
+    """no-alloc logger shared by several threads: exactly one whole line per accepted call in the file, none for
+    filtered calls, nothing lost / duplicated / torn, each thread's lines in its call order and with its own thread id"""
+    errs = []
+    accepted, filtered, content = {}, [], None
+    for l in lines:
+        if l.startswith("CRASH"):
+            errs.append("implementation crashed / sanitizer report: " + l[:600])
+        elif l.startswith("O MONITOR"):
+            errs.append("harness monitor: " + l[2:])
+        elif l.startswith("O logged "):
+            t = l.split()
+            accepted[(int(t[2][1:]), int(t[3]))] = (t[4].encode(), t[5].split("=")[1].encode())
+        elif l.startswith("O filtered "):
+            t = l.split()
+            filtered.append((int(t[2][1:]), int(t[3])))
+        elif l.startswith("F "):
+            content = unhx(l[2:])
+        elif l.startswith("R "):
+            kv = dict(x.split("=", 1) for x in l.split()[1:] if "=" in x)
+            if kv.get("rc") != "0":
+                errs.append("deadlock / livelock: " + l)
+            elif kv.get("live_blocks") != "0" or kv.get("misuse") != "0":
+                errs.append("allocator imbalance or mutex misuse: " + l)
+    if content is None:
+        return errs + ["run did not finish"]
+    if b"\0" in content:
+        errs.append(f"NUL byte in the log file at offset {content.index(0)}")
+    if content and not content.endswith(b"\n"):
+        errs.append("log file does not end in a newline (torn last line)")
+    seen, last = {}, {}
+    for n, ln in enumerate(content.split(b"\n")[:-1] if content else []):
+        m = _na_line.match(ln)
+        if not m:
+            errs.append(f"line {n} of the file is not a whole log line: {ln[:80]!r}")
+            continue
+        key = (int(m.group(3)), int(m.group(4)))
+        if key not in accepted:
+            errs.append(f"line {n}: call {key} was {'filtered' if key in filtered else 'never made'} but is in the file")
+            continue
+        lvl, tid = accepted[key]
+        if ln.split(b" - ", 1)[1] != na_text(*key) or m.group(1) != lvl:
+            errs.append(f"line {n}: message of call {key} is not complete / not its own: {ln[-60:]!r}")
+        if m.group(2) != tid:
+            errs.append(f"line {n}: call {key} of thread id {tid.decode()} carries thread id {m.group(2).decode()}")
+        seen[key] = seen.get(key, 0) + 1
+        if key[0] in last and last[key[0]] > key[1]:
+            errs.append(f"thread {key[0]}: line {key[1]} after line {last[key[0]]} (call order not preserved)")
+        last[key[0]] = max(last.get(key[0], -1), key[1])
+    for key in accepted:
+        if seen.get(key, 0) != 1:
+            errs.append(f"accepted call {key} has {seen.get(key, 0)} line(s) in the file, expected exactly one")
+    return errs
+
+
 def bg_oracle(cfg, lines):
     """property clauses on the observables of one implementation run (O/R lines only)"""
+    if cfg.split()[5] == "3":
+        return na_oracle(cfg, lines)
     errs = []
     foreground = cfg.split()[5] == "2"
     sent, written, destroyed = [], [], []
@@ -581,8 +667,8 @@ def bg_stage(ctx, run_lines=None, label="seeded"):
         def mrun(idc):
             txt = []
             for i in idc:
-                if by_id[i].split()[5] == "2":
-                    continue      # foreground-channel runs: oracle only
+                if by_id[i].split()[5] in ("2", "3"):
+                    continue      # foreground-channel and no-alloc-logger runs: oracle only
                 ops, exp = bg_model_ops(res[i])
                 expected[i] = exp
                 txt.append(f"case {i}")
@@ -616,15 +702,18 @@ def bg_stage(ctx, run_lines=None, label="seeded"):
         sched = next((l[2:] for l in lines if l.startswith("S")), "")
         t = by_id[i].split()
         picks = sched.split()
-        replay_line = f"run 0 {t[2]} {t[3]} {t[4]} {t[5]} list {len(picks)} " + " ".join(picks)
+        replay_line = f"run 0 {t[2]} {t[3]} {t[4]} {t[5]} {t[6]} list {len(picks)} " + " ".join(picks)
         if errs and reported < 3:
             ctx.violation(f"bg-{ctx.seed}-{i}", {"bg_run": by_id[i], "bg_replay": replay_line.strip(), "clause": errs[:5],
                                                 "observables": [l for l in lines if l.startswith(("O ", "R "))][-60:]},
-                          "background channel (implementation run under the deterministic scheduler): " + errs[0])
+                          {"2": "foreground channel", "3": "no-alloc logger shared by threads"}.get(by_id[i].split()[5], "background channel")
+                          + " (implementation run under the deterministic scheduler): " + errs[0])
             reported += 1
             continue
         if by_id[i].split()[5] == "2":
             stats["foreground_runs"] = stats.get("foreground_runs", 0) + 1
+        elif by_id[i].split()[5] == "3":
+            stats["noalloc_logger_runs"] = stats.get("noalloc_logger_runs", 0) + 1
         elif have_model and not errs:
             got = [l for l in mres.get(i, []) if l.startswith(("P ", "W ")) or l == "bad-op"]
             exp = expected.get(i, [])
@@ -688,7 +777,8 @@ MANIFEST = dict(
           "suffices; level gate and level stores; and, over every interleaving of the background channel's transition system (senders, "
           "consumer thread, clean-up, spurious wake-ups): FIFO partition of sent lines into written/batch/pending, per-sender order, single "
           "destruction, nothing written after clean-up returns, flush of everything accepted before clean-up, absence of deadlock and of "
-          "lost wake-ups. Tied to /repo by differential runs of the compiled model against the formatter, the no-alloc logger and a "
+          "lost wake-ups; a failing writer does not change ownership (line destroyed exactly once, call succeeds); the no-alloc logger used by "
+          "any number of threads writes exactly the lines the calls formatted (per-call buffer), once each, in call order per thread. Tied to /repo by differential runs of the compiled model against the formatter, the no-alloc logger and a "
           "pipeline logger (frozen clock, all levels x filters, total_length 2..300 exhaustively, messages 0..9000 bytes) with a direct "
           "oracle, and by running the real background channel with 1-4 sender threads under a deterministic scheduler (link-time "
           "interposition of pthread calls), every run's synchronisation events being replayed step by step on the Lean transition system."),
